@@ -122,7 +122,14 @@ def run(ctx, res):
             b = [c for c in t.children if c.data == 'b'][0]
             if b.children:
                 res.violation('regression of fixed finding F17: ' + f['what'], w)
-    jobs, outs = shapelib.shape_stream(ctx, 3, 200, 6000)
+    # hand-written shapes the random stream does not reach: alternatives of three and more symbols with a common first symbol whose names run together
+    # when joined by '_' (helper non-terminals of CYK's normal form are named after the symbols they stand for), aliases on such alternatives
+    corpus = [
+        'start: rec+\nrec: KEY sep_value end | KEY sep value_end\nsep_value: SEP VAL\nend: "!"\nsep: SEP\nvalue_end: VAL ";"\nKEY: "k"\nSEP: "="\nVAL: "v"\n%ignore " "\n',
+        'start: stmt+\nstmt: IF cond then _blk -> if_long | IF cond_then _blk -> if_short\ncond: "(" NAME ")"\nthen: "then" NAME\ncond_then: "[" NAME "]"\n_blk: "{" NAME "}"\nIF: "if"\nNAME: "n"\n%ignore " "\n',
+        'start: a_b c d | a b_c d\na_b: "1"\nc: "2"\nd: "3"\na: "4"\nb_c: "5"\n%ignore " "\n',
+    ]
+    jobs, outs = shapelib.shape_stream(ctx, 3, 200, 6000, corpus=corpus)
     check(ctx, res, jobs, outs)
     # ---- EBNF level: lark's compilation of ? * + ~ groups, ! and keep_all_tokens vs an independent desugaring into explicit inlined helper rules
     import ebnflib
